@@ -21,7 +21,7 @@ ENTRY = {'coq_dir': 'C08',
                   'atomic-handler abstraction: one input per poll_next; several queued events drained in one poll before the timers are looked at '
                   'are modelled as consecutive polls at the same instant',
                   'the harness plays the connection task and the protocol (holds permits of opens in flight, answers them, keeps/drops substreams); '
-                  'SubstreamOpened carries a real tcp::Substream over a dead yamux stream'],
+                  'SubstreamOpened carries a real tcp::Substream over a stream of a parked yamux connection'],
  'level_text': 'Proof: for every feasible history (any peers, any interleaving of <= 2 overlapping connections per peer, opens, answers, polls) the '
                'per-peer event stream of the model is (Established (SubstreamOpened|OpenFailure)* Closed)* — alternation and substream scope —, the '
                '(primary, secondary) view equals the open connections in establishment order at every step, returned substream ids are strictly '
